@@ -166,7 +166,7 @@ static void upipe_rtp_h264_output_nalu(struct upipe *upipe,
     bool split = size > RTP_SPLIT_SIZE;
     uint32_t fragment = 0;
 
-    while (size) {
+    do {
         bool last_fragment = size <= RTP_SPLIT_SIZE;
         size_t split_size = last_fragment ? size : RTP_SPLIT_SIZE;
         uint8_t hdr[2] = { nalu, 0 };
@@ -224,7 +224,7 @@ static void upipe_rtp_h264_output_nalu(struct upipe *upipe,
         size -= split_size;
         fragment++;
         uref = next;
-    }
+    } while (size);
 }
 
 static void upipe_rtp_h264_drop(struct upipe *upipe, struct uref *uref)
